@@ -151,7 +151,13 @@ def is_ncname(name: str | None) -> bool:
         return False
 
     for char in name[1:]:
-        if char.isalpha() or char.isdigit() or char in NCNAME_PUNCTUATION:
+        if (
+            char.isalpha()
+            or char.isdigit()
+            or char in NCNAME_PUNCTUATION
+            or "\u0300" <= char <= "\u036f"
+            or "\u203f" <= char <= "\u2040"
+        ):
             continue
 
         return False
